@@ -82,7 +82,7 @@ def model_keys(in_rows_parts, p):
 # --------------------------------------------------------------------------
 # float coordinates
 # --------------------------------------------------------------------------
-FLAVOURS = ['window', 'edge', 'grid', 'tiny', 'small', 'zero-cross']
+FLAVOURS = ['window', 'edge', 'fine', 'grid', 'tiny', 'small', 'zero-cross']
 
 
 def ulp_step(x, k):
@@ -99,7 +99,13 @@ def edge_values(rng, lo, hi, p, count):
     out = []
     for _ in range(count):
         k = rng.choice([1, n - 1, n // 2, rng.randint(0, n), rng.randint(0, n), rng.randint(0, min(n, 64))])
-        how = rng.randint(0, 4)
+        how = rng.randint(0, 6)
+        if how >= 5:
+            # the step of an ulp or two taken on the OFFSET from lo (finer than an ulp of the sum when
+            # |lo| is large): the scaled value is within an ulp of the integer k
+            d = k * (w / n) if how == 5 else k * w / n
+            out.append(min(max(lo + ulp_step(d, rng.choice([0, 0, 1, -1, 2, -2])), lo), hi))
+            continue
         if how == 0:
             c = lo + k * (w / n)
         elif how == 1:
@@ -125,6 +131,12 @@ def axis_values(rng, flavour, p, m):
         else:
             vals = [min(max(lo + rng.random() * (hi - lo), lo), hi) for _ in range(m)]
         return lo, hi, vals
+    if flavour == 'fine':
+        # lo with few significant bits (v - lo is exact or nearly so), a width that is no power of two,
+        # values an ulp of the OFFSET away from the cell edges: the sharpest near-ties
+        lo = rng.choice([0.0, 3.0, -16.0, 0.5, 0.1, -0.3, 1.0, -1024.0])
+        hi = lo + rng.choice([rng.uniform(0.1, 1000), rng.randint(1, 999) * 0.1, rng.randint(3, 99) * 1.0])
+        return lo, hi, edge_values(rng, lo, hi, p, m)
     if flavour == 'grid':
         # a regular decimal grid whose extent is 2^p spacings: x_k = (i0 + k) * step written with
         # a few decimals (not representable), so every value is a near-tie of the discretisation
@@ -235,8 +247,9 @@ def big_points(rng, p, nrows, flavour):
     xs = np.array([lox, hix] + xs + edge_values(rng, lox, hix, p, 40))
     ys = np.array([loy, hiy] + ys + edge_values(rng, loy, hiy, p, 40))
     npr = np.random.RandomState(rng.getrandbits(32))
+    # every x value and every y value occurs, each x with six y's: a few hundred distinct points
     ix = npr.randint(0, len(xs), nrows)
-    iy = npr.randint(0, len(ys), nrows)
+    iy = (ix * 5 + npr.randint(0, 6, nrows)) % len(ys)
     ix[:2] = [0, 1]
     iy[:2] = [0, 1]
     perm = npr.permutation(nrows)
@@ -355,20 +368,23 @@ def gen_big_specs(rep, tier):
     quick = tier == 'quick'
     specs = []
     # (rows, input partitionings): one partition above the threshold against partitions below it
+    c600 = [[0, 600], [0, 511, 512, 600], [0] + list(range(50, 600, 50)) + [600]]       # 512; 12 partitions
     ladder = [
-        (600, 'line', [[0, 600], [0, 511, 512, 600], [0] + list(range(50, 600, 50)) + [600]]),       # 512; 12 partitions
-        (70000, 'point', [[0, 70000], [0, 35000, 70000], [0, 4465, 70000]]),                          # 50 000, 2^16
-        (70000, 'line', [[0, 70000], [0, 20000, 45000, 70000]]),
-        (140000, 'point', [[0, 140000], [0, 70000, 140000], [0, 46000, 93000, 140000], [0, 8928, 140000]]),  # 2^17
+        (600, 'line', c600, 'grid'),
+        (70000, 'point', [[0, 70000], [0, 35000, 70000], [0, 4465, 70000]], 'grid'),      # 50 000, 2^16
+        (70000, 'line', [[0, 70000], [0, 20000, 45000, 70000]], 'fine'),
+        (66000, 'point', [[0, 66000], [0, 33000, 66000]], 'edge'),
+        (68000, 'line', [[0, 68000], [0, 34000, 68000]], 'grid'),
+        (140000, 'point', [[0, 140000], [0, 70000, 140000], [0, 46000, 93000, 140000], [0, 8928, 140000]], 'grid'),  # 2^17
+        (132000, 'line', [[0, 132000], [0, 44000, 88000, 132000]], 'fine'),
     ]
-    for nrows, kind, cutsets in ladder:
+    for nrows, kind, cutsets, flav in ladder:
         for rnd in range(1 if quick else 4):
-            flavour = 'grid' if rnd == 0 else rng.choice(['grid', 'edge', 'window', 'tiny'])
-            p = rng.choice([3, 5, 10]) if flavour == 'grid' else rng.choice([5, 10, 15, 20])
+            flavour = flav if rnd == 0 else rng.choice(['grid', 'edge', 'fine', 'window', 'tiny'])
             specs.append({'kind': kind if rnd % 2 == 0 else ('line' if kind == 'point' else 'point'),
-                          'nrows': nrows, 'p': p, 'flavour': flavour, 'cutsets': cutsets,
-                          'npartitions': rng.choice([2, 3, 4]), 'missing': rng.choice([0, 3]),
-                          'seed': rng.getrandbits(32)})
+                          'nrows': nrows, 'p': rng.choice([5, 8, 10, 15, 20]), 'flavour': flavour,
+                          'cutsets': cutsets, 'npartitions': rng.choice([2, 3, 4]),
+                          'missing': rng.choice([0, 3]), 'seed': rng.getrandbits(32)})
     return specs
 
 
